@@ -2,6 +2,8 @@ import Proofs.C02.Ecdsa
 import Proofs.C02.Misc
 import Proofs.C02.Der
 import Proofs.C02.Witness
+import Proofs.C02.Bits
+import Proofs.C02.SignMsg
 import Proofs.E2E.C02
 /-!
 # C02 — ECDSA: signatures verify, verification is the SEC 1 equation, recovery, DER is canonical
@@ -9,7 +11,8 @@ import Proofs.E2E.C02
 Property theorems only (DESIGN §3 C02).  The scheme is `Btc.Ecdsa.*` (Model/C02/Ecdsa.lean), the SAME
 definitions the driver executes with `Btc.EC.ops c` against btclib; here they are reasoned about for
 every `o : GroupOps α` that is `Lawful` (the operations are those of a group of prime exponent `n` with
-an x-coordinate map — for `Btc.EC.ops c` that is property C01, a named hypothesis here).
+an x-coordinate map).  For `Btc.EC.ops C` the bundle is PROVED by C01 (`lawful_ec`) on the `n`-torsion carrier: see the
+"End to end" section below, which also says what is left assumed there (cofactor one, for arbitrary keys).
 `mod_inv` is the executable extended Euclid `Btc.EC.modInv`, proved to invert (Proofs/C02/Basic.lean).
 -/
 namespace Props.C02
@@ -55,8 +58,10 @@ theorem ecdsa_crack (L : Lawful o G) {c1 c2 q k r1 s1 id1 r2 s2 id2 : ℤ}
 
 /-- T2' (the public boolean): `dsa.verify_` validates the `Sig` first — ranges and "r is congruent to an
     x-coordinate below p" (`Sig.assert_valid`, x-coordinate test `isX`) — and turns every refusal into
-    `False`.  Provided `isX` accepts the x-coordinate of every non-identity element, that screen never
-    changes the verdict: the API's boolean IS the SEC 1 predicate. -/
+    `False`.  CONDITIONAL on `hX`: IF the x-coordinate test `isX` accepts the x-coordinate of every non-identity
+    element, that screen never changes the verdict.  `hX` is discharged for the executed test `Btc.Ecdsa.isXCoord C`
+    (Euler's criterion, btclib's Python arm) in `ecdsa_verify_api_is_sec1_ec` below; libsecp256k1's own test is
+    compared (both-backend streams), not proved. -/
 theorem ecdsa_verify_api_is_sec1 (L : Lawful o G) (isX : ℤ → Bool)
     (hX : ∀ P, L.abs P ≠ 0 → isX (o.x P) = true) (c : ℤ) (Q : α) (r s : ℤ) :
     verifyFull o isX c Q r s = true ↔ SEC1 L c Q r s := by
@@ -75,6 +80,52 @@ theorem grind_returns_first_low {σ : Type} (attempt : ℕ → Option σ) (isLow
     attempt m = some sig ∧ isLow sig = true ∧ ∀ j, j < m → ∃ sj, attempt j = some sj ∧ isLow sj = false := by
   have := Rfc6979.grindFrom_first attempt isLow fuel 0 m sig (by simpa [Rfc6979.grindLowR] using h)
   exact ⟨this.1, this.2.1, fun j hj => this.2.2.2 j (Nat.zero_le _) hj⟩
+
+/-- T3' (recovery is sound on ARBITRARY signatures): whatever `_recover_pub_key_` answers — any `key_id`, any
+    `(c, r, s)` with `r, s ∈ 1..n-1`, either cofactor arm — is a key under which `(r, s)` verifies. -/
+theorem ecdsa_recover_sound (L : Lawful o G) {primeOrder lowerS : Bool} {kid c r s : ℤ} {Q : α}
+    (hr : 0 < r ∧ r < o.n) (hs : 0 < s ∧ s < o.n)
+    (h : recover o primeOrder kid c r s lowerS = .ok Q) : verify o c Q r s = true :=
+  recover_sound L hr hs h
+
+/-- T3'' (the enumeration `_recover_pub_keys_`): every key in the list verifies the signature.  (Completeness of the
+    list — every verifying key with an admissible `x_K` is listed — is NOT proved; the signer's own key is, by T3.) -/
+theorem ecdsa_recover_all_sound (L : Lawful o G) (h : ℕ) {c r s : ℤ} {lowerS : Bool}
+    (hr : 0 < r ∧ r < o.n) (hs : 0 < s ∧ s < o.n) (Q : α) (hQ : Q ∈ recoverAll o h c r s lowerS) :
+    verify o c Q r s = true :=
+  recoverAll_sound L h hr hs Q hQ
+
+/-- T4c (`sign_` end to end, Python arm, any HMAC): for an explicit nonce or the RFC 6979 one, with or without low-R
+    grinding, the `(r, s)` answered is a function of `(digest, q, nonce?, lower_s, grind)` (it is `signMsg`), verifies
+    under `q·G` for the challenge of the digest, is low-s when asked, and on the grinding arm has a low `r`
+    (`_is_low_r`, translated).  This composes T4a/T4b with T1. -/
+theorem ecdsa_sign_msg_verifies (L : Lawful o G) (H : Rfc6979.HashSpec) (m : Bytes) (q : ℤ) (k? : Option ℤ)
+    (lowerS grind : Bool) (fuel : ℕ) (σ : ℤ × ℤ)
+    (h : Rfc6979.signMsg o H m q k? lowerS grind fuel = .ok σ) (Q : α) (hQ : L.abs Q = q • L.abs o.gen) :
+    verify o (Rfc6979.challenge o.n m) Q σ.1 σ.2 = true ∧ (lowerS = true → σ.2 ≤ o.n / 2) ∧
+      (k? = none → grind = true → Gen.Ecdsa.is_low_r σ.1 (Rfc6979.nsizeOf o.n) = true) :=
+  Rfc6979.signMsg_verifies L H m q k? lowerS grind fuel σ h Q hQ
+
+/-- T4d (`sign_recoverable_` end to end): the `(r, s)` verifies and the `key_id` beside it recovers `q·G`. -/
+theorem ecdsa_sign_recoverable_msg_recovers (L : Lawful o G) (H : Rfc6979.HashSpec) (m : Bytes) (q : ℤ)
+    (k? : Option ℤ) (lowerS : Bool) (fuel : ℕ) (r s kid : ℤ)
+    (h : Rfc6979.signRecMsg o H m q k? lowerS fuel = .ok (r, s, kid)) (Q : α)
+    (hQ : L.abs Q = q • L.abs o.gen) (primeOrder : Bool) :
+    verify o (Rfc6979.challenge o.n m) Q r s = true ∧ (lowerS = true → s ≤ o.n / 2) ∧
+      ∃ Q', recover o primeOrder kid (Rfc6979.challenge o.n m) r s false = .ok Q' ∧ L.abs Q' = q • L.abs o.gen :=
+  Rfc6979.signRecMsg_recovers L H m q k? lowerS fuel r s kid h Q hQ primeOrder
+
+/-- T7 (bits2int): the TRANSLATED `utils.int_from_bits` is the big-endian value of the octets shifted right by
+    `max(0, 8·len − nlen)` — the leftmost `nlen` bits — and has at most `nlen` bits; the challenge is that, mod n. -/
+theorem bits2int_leftmost (m : Bytes) (nlen : ℕ) :
+    Gen.Ecdsa.int_from_bits m (nlen : ℤ) = ((ofBE m : ℕ) : ℤ) / 2 ^ ((8 * (m.length : ℤ)) - nlen).toNat ∧
+    0 ≤ Gen.Ecdsa.int_from_bits m (nlen : ℤ) ∧ Gen.Ecdsa.int_from_bits m (nlen : ℤ) < 2 ^ nlen :=
+  ⟨Rfc6979.int_from_bits_eq m nlen, Rfc6979.int_from_bits_range m nlen⟩
+
+theorem challenge_is_leftmost_bits (n : ℤ) (m : Bytes) :
+    Rfc6979.challenge n m =
+      (((ofBE m : ℕ) : ℤ) / 2 ^ ((8 * (m.length : ℤ)) - Rfc6979.nlenOf n).toNat) % n :=
+  Rfc6979.challenge_eq n m
 
 /-- T8a (BMS): the recovery flag `bms.sign` writes is in 27..42 and `bms.assert_as_valid` reads back the
     same key_id and compression from it, and accepts it for the address type it was written for.
@@ -122,6 +173,25 @@ theorem der_strict_injective (b₁ b₂ : Bytes) (σ : ℕ × ℕ)
   rw [e₁] at e₂
   exact Except.ok.inj e₂
 
+/-- T5d (DER proper / BIP66 shape): "canonical" above means "equals `Sig.serialize`", whose lengths are CompactSize
+    octets.  For `r, s < 2^256` that IS the DER short form: `30 L 02 lr <r> 02 ls <s>` with every length one octet
+    below `0x80` (`1 ≤ lr, ls ≤ 33`, `L < 0x80`), the integers minimal and non-negative (`Der.sbytes`). -/
+theorem der_bip66_shape (r s : ℕ) (hr : r < 2 ^ 256) (hs : s < 2 ^ 256) :
+    Der.serialize (r : ℤ) (s : ℤ) =
+      .ok (0x30 :: UInt8.ofNat (4 + (Der.sbytes r).length + (Der.sbytes s).length) :: 0x02 ::
+        UInt8.ofNat (Der.sbytes r).length :: (Der.sbytes r ++ 0x02 :: UInt8.ofNat (Der.sbytes s).length :: Der.sbytes s)) ∧
+    0 < (Der.sbytes r).length ∧ (Der.sbytes r).length ≤ 33 ∧ 0 < (Der.sbytes s).length ∧ (Der.sbytes s).length ≤ 33 ∧
+    4 + (Der.sbytes r).length + (Der.sbytes s).length < 0x80 :=
+  Der.serialize_bip66 r s hr hs
+
+/-- T5d' : a string the strict parser reads as a 256-bit signature is exactly that short form, at most 72 octets. -/
+theorem der_strict_is_bip66 (b : Bytes) (r s : ℕ) (h : Der.parseStrict b = some (r, s))
+    (hr : r < 2 ^ 256) (hs : s < 2 ^ 256) :
+    b = 0x30 :: UInt8.ofNat (4 + (Der.sbytes r).length + (Der.sbytes s).length) :: 0x02 ::
+        UInt8.ofNat (Der.sbytes r).length :: (Der.sbytes r ++ 0x02 :: UInt8.ofNat (Der.sbytes s).length :: Der.sbytes s) ∧
+    b.length ≤ 72 :=
+  Der.parseStrict_bip66 b r s h hr hs
+
 /-- T5c (DER): lax ⊇ strict, with the same reading. -/
 theorem der_lax_of_strict (b : Bytes) (σ : ℕ × ℕ) (h : Der.parseStrict b = some σ) :
     Der.parseLax b = some σ :=
@@ -134,6 +204,14 @@ example : Der.parseStrict [0x30, 0x07, 0x02, 0x02, 0x00, 0x01, 0x02, 0x01, 0x05]
 example : Der.parseLax [0x30, 0x07, 0x02, 0x02, 0x00, 0x01, 0x02, 0x01, 0x05] = some (1, 5) := by decide
 example : Der.parseStrict [0x30, 0x06, 0x02, 0x01, 0x01, 0x02, 0x01, 0x05, 0x00] = none := by decide
 example : Der.parseStrict [0x30, 0x06, 0x02, 0x01, 0x81, 0x02, 0x01, 0x05] = none := by decide
+
+-- non-vacuity (T6, T4a, T4b): two signatures sharing a nonce on the 13-point curve crack to (q, k) = (5, 2);
+-- a nonce is returned (toy HMAC); the grinding loop returns counter 2 after two high attempts
+example : crack (EC.ops { p := 19, a := 0, b := 2, gx := 4, gy := 16, n := 13, h := 2 }) 3 5 1 4 5 8 = .ok (5, 2) := by
+  decide +kernel
+example : Rfc6979.nonce ⟨fun k m => [UInt8.ofNat (17 * k.length + 5 * m.length + 3)], 1⟩ 13 3 5 [] 6 = some 1 := by
+  decide +kernel
+example : Rfc6979.grindLowR (fun i => some i) (fun i => decide (2 ≤ i)) true 5 = some (2, 2) := by decide
 
 -- non-vacuity of the hypothesis bundle itself: a concrete lawful `GroupOps` exists (Proofs/C02/Witness.lean),
 -- and on it T1/T3 have non-trivial instances
@@ -159,7 +237,13 @@ every curve with `CurveOk p C` (p prime ≠ 2, n an odd prime, generator reduced
 scheme functions being the same definitions as above (proofs: Proofs/E2E/C02.lean).  For secp256k1 (the generated
 constants `Gen.Curves.secp256k1`) every `CurveOk` field is established by the kernel (`Btc.E2E.secpOk`; `n•G = ∞` by
 running the 256-step double-and-add; primality of `p` and of `n` by Pratt certificates, `Btc.E2E.secp256k1_p_prime`,
-`secp256k1_n_prime`), so the secp256k1 theorems carry no hypothesis about the curve. -/
+`secp256k1_n_prime`), so the secp256k1 theorems carry no hypothesis about `CurveOk`.
+WHAT IS LEFT ASSUMED: the carrier of `lawful_ec` is the `n`-torsion (`SubPt`: reduced valid pairs `P` with `n•P = 0`).
+T1 / T3 speak about keys `mult q G`, which are in it.  For an ARBITRARY key a caller hands in, membership needs
+cofactor one (`hcof : ∀ g, n • g = 0`: the curve has exactly `n` points) — not proved for secp256k1 (no point count);
+the `…_cofactor_one` theorems below take it as their one named hypothesis and are stated over the raw `EC.ops C` and
+keys as `point_from_pub_key` accepts them.  `h34` (`p ≡ 3 mod 4`) is carried by every `_ec` theorem, sign/verify
+included, only because `Lawful` bundles `lift_x`. -/
 namespace Props.C02
 open Btc Btc.EC Btc.C01 Btc.E2E Btc.Ecdsa
 
@@ -170,7 +254,8 @@ theorem ecdsa_sign_verifies_ec {p : ℕ} [Fact p.Prime] {C : Curve} (K : CurveOk
     verify (EC.ops C) c ((EC.ops C).mul q C.G) r s = true ∧ (lowerS = true → s ≤ C.n / 2) :=
   Btc.E2E.ecdsa_sign_verifies_ec K h34 hk h
 
-/-- T2 on btclib's arithmetic, any curve: `Q` a reduced valid pair of the `n`-torsion, `SEC1` read in Mathlib's point
+/-- T2 on btclib's arithmetic, any curve, for keys IN THE `n`-TORSION CARRIER (covers keys built from `G`; arbitrary
+    keys: `ecdsa_verify_api_is_sec1_ec_cofactor_one`): `Q` a reduced valid pair of the `n`-torsion, `SEC1` read in Mathlib's point
     group of the curve over `ZMod p` through `absSub` (the point a pair denotes) -/
 theorem ecdsa_verify_iff_sec1_ec {p : ℕ} [Fact p.Prime] {C : Curve} (K : CurveOk p C) (h34 : p % 4 = 3)
     (c : ℤ) (Q : SubPt p C) (r s : ℤ) :
@@ -194,7 +279,7 @@ theorem ecdsa_sign_verifies_secp256k1
       (lowerS = true → s ≤ secp256k1.n / 2) :=
   Btc.E2E.ecdsa_sign_verifies_secp256k1 hk h
 
-/-- T2 on secp256k1 -/
+/-- T2 on secp256k1, keys in the `n`-torsion carrier (`SecpPt` carries the proof `n•Q = 0`) -/
 theorem ecdsa_verify_iff_sec1_secp256k1
     (c : ℤ) (Q : SecpPt) (r s : ℤ) :
     verify (EC.ops secp256k1) c Q.1 r s = true ↔ SEC1 secpLawful c Q r s :=
@@ -209,6 +294,32 @@ theorem ecdsa_recover_signer_secp256k1
     ∃ Q', recover (EC.ops secp256k1) primeOrder kid c r s lowerS' = .ok Q' ∧
       (EC.ops secp256k1).eq Q' ((EC.ops secp256k1).mul q secp256k1.G) = true :=
   Btc.E2E.ecdsa_recover_signer_secp256k1 hk hq h primeOrder lowerS' hl'
+
+/-- T2 + T2' over the RAW arithmetic for ANY key the API accepts (`pubKeyOk`: `point_from_pub_key` on a tuple; `x`
+    reduced), under cofactor one: the public boolean with the EXECUTED x-coordinate screen `isXCoord C` (`hX` proved:
+    `Btc.E2E.isXCoord_complete`) equals `verify`, and `verify` is the SEC 1 relation for the point `Q` denotes. -/
+theorem ecdsa_verify_api_is_sec1_ec_cofactor_one {p : ℕ} [Fact p.Prime] {C : Curve} (K : CurveOk p C) (h34 : p % 4 = 3)
+    (hcof : ∀ g : Pt p C.toCurveGroup, C.n • g = 0) (c : ℤ) (Q : Point)
+    (hk : pubKeyOk C Q = true) (hx : 0 ≤ Q.1 ∧ Q.1 < C.p) (r s : ℤ) :
+    (verifyFull (EC.ops C) (isXCoord C) c Q r s = true ↔ verify (EC.ops C) c Q r s = true) ∧
+    (verify (EC.ops C) c Q r s = true ↔
+      SEC1 (lawful_ec K h34) c ⟨Q, inSubOf hcof (valid_of_pubKeyOk K hk hx).1 (valid_of_pubKeyOk K hk hx).2.1⟩ r s) :=
+  Btc.E2E.ecdsa_verify_api_is_sec1_key K h34 hcof c Q hk hx r s
+
+/-- the same on secp256k1; `hcof` (the curve has exactly `n` points) is the one assumption -/
+theorem ecdsa_verify_api_is_sec1_secp256k1_cofactor_one (hcof : ∀ g : SecpGroup, secp256k1.n • g = 0) (c : ℤ)
+    (Q : Point) (hk : pubKeyOk secp256k1 Q = true) (hx : 0 ≤ Q.1 ∧ Q.1 < secp256k1.p) (r s : ℤ) :
+    (verifyFull (EC.ops secp256k1) (isXCoord secp256k1) c Q r s = true ↔
+      verify (EC.ops secp256k1) c Q r s = true) ∧
+    (verify (EC.ops secp256k1) c Q r s = true ↔
+      SEC1 secpLawful c ⟨Q, @inSubOf secp256k1_p ⟨secp256k1_p_prime⟩ secp256k1 hcof _
+        (@valid_of_pubKeyOk secp256k1_p ⟨secp256k1_p_prime⟩ secp256k1 secpOk Q hk hx).1
+        (@valid_of_pubKeyOk secp256k1_p ⟨secp256k1_p_prime⟩ secp256k1 secpOk Q hk hx).2.1⟩ r s) :=
+  Btc.E2E.ecdsa_verify_api_is_sec1_secp256k1 hcof c Q hk hx r s
+
+-- on the toy curve (31 points = n: cofactor one holds by counting is not attempted; the hypothesis is satisfiable
+-- there) a key the API accepts: `pubKeyOk` computes
+example : pubKeyOk toyC ((EC.ops toyC).mul 5 toyC.G) = true := by decide +kernel
 
 -- non-vacuity: `CurveOk` is PROVED for `y² = x³ + 7` over `F₄₃` (31 points), so on it nothing is assumed: an actual
 -- signing run of btclib's arithmetic, and the theorems' verdicts on it
